@@ -16,8 +16,9 @@ RULE = (
     "plain / aliased / multi-name / from-name / from-submodule / star / relative levels 1..depth / inside __init__ forms; "
     "(b) seeded random project trees (depth <= 4, with/without __init__.py, non-.py files, prefix-sibling names) with random "
     "imports, every directory as module_path. Real scan vs PtaModel.generateGraph (fed the file's Import/ImportFrom nodes "
-    "as enumerated by ast.walk) vs PtaSpec.scanModules / scanImports. distinct_nontrivial = distinct (importer file, "
-    "statement, position) triples whose statement names an internal module."
+    "as enumerated by ast.walk) vs PtaSpec.scanModules / scanImports. evaluations = scans; distinct_nontrivial = "
+    "distinct scanned (tree, module_path) cases containing at least one statement that names an internal module; the number "
+    "of distinct (importer file, statement, position) triples covered is in each stream's histogram."
 )
 
 
@@ -60,8 +61,13 @@ def judge(ctx, stream, results, aspect):
         stream.evaluations += 1
         m, s = ans.get("M", "?"), ans.get("S", "?")
         stream.count("impl:" + ("ERR" if impl.startswith("ERR") else "ok"))
-        for key in case.get("features", ()):
-            stream.nontrivial.add(key)
+        feats = case.get("features", ())
+        if feats:
+            stream.nontrivial.add(digest((sorted((k, v) for k, v in case["tree"].items() if v), case["mp"])))
+        if not hasattr(stream, "features"):
+            stream.features = set()
+        stream.features.update(feats)
+        stream.hist["distinct (importer, position, form) features"] = len(stream.features)
         if len(ctx.samples) < 2 and not impl.startswith("ERR") and "imps:" in impl and len(impl) < 1500 and ">" in impl.split("|imps:")[1].split("|")[0]:
             ctx.samples.append({"files": {p: v for p, v in case["tree"].items() if v}, "mp": case["mp"], "impl": impl})
         I, S_ = sc.parse_snapshot(impl), sc.parse_snapshot(s)
